@@ -775,6 +775,8 @@ class AEval(dtable.Eval):
                 e2.update(b)
                 return B(self.truth(e["mguard"], e2))
             return B(True)
+        if p.split("::")[-1] in ("debug_warn", "warn", "log", "debug_log", "debug_error", "error", "trace", "debug", "info", "eprintln", "println", "eprint", "print"):
+            return UNIT          # logging has no effect on what is computed
         if p in ("unreachable", "panic", "unimplemented", "todo"):
             raise Ret(C("!panic"))
         if p in ("format", "format_ident") and "args" in e and e["args"]:
@@ -1955,6 +1957,8 @@ class AEval(dtable.Eval):
                 return r[2][0] if some else self.apply(args[0], [])
             if m == "unwrap_or_default" and not args:
                 return r[2][0] if some else DEFAULT
+            if m == "flatten" and not args:
+                return r[2][0] if some and r[2][0][0] == "ctor" and r[2][0][1] in ("Some", "None") else (r if not some else r)
             if m == "map_or":
                 return self.apply(args[1], [r[2][0]]) if some else args[0]
             if m == "map_or_else":
